@@ -83,7 +83,7 @@ func c33MessagesDecoders() []ref.C33Decoder {
 func TestVerif_C33_messages(t *testing.T) {
 	r := verifmc.NewReport("C33", "messages", "exploration")
 	defer r.Write()
-	cfg := ref.C33Config{MaxLen: verifmc.Pick(2, 3), CraftedScale: verifmc.Pick([]uint64{1 << 14, 1 << 22}, []uint64{1 << 14, 1 << 22, 1 << 30}), CraftedPB: []uint64{1 << 14, 1 << 30, 1<<32 - 1}, AllocAll: verifmc.Thorough()}
+	cfg := ref.C33Config{MaxLen: verifmc.Pick(2, 3), CraftedScale: verifmc.Pick([]uint64{1 << 14, 1 << 20}, []uint64{1 << 14, 1 << 22, 1 << 30}), CraftedPB: []uint64{1 << 14, 1 << 30, 1<<32 - 1}, AllocAll: verifmc.Thorough()}
 	r.Rule = ref.C33Rule(cfg)
 	for _, a := range ref.C33Assumptions() {
 		r.Assumption(a)
